@@ -115,8 +115,15 @@ video_sink_start(struct video_sink_s* self)
     // Join the channel as a reader before any producer runs. A channel without
     // readers lets the writer wrap freely, so frames written before this
     // sink's thread first maps the channel could be overwritten and lost.
-    channel_read_map(&self->in, &self->reader);
-    channel_read_unmap(&self->in, &self->reader, 0);
+    // Anything still queued belongs to an earlier acquisition whose sink
+    // failed before draining it; it must not reach this acquisition's storage.
+    {
+        struct slice stale;
+        do {
+            stale = channel_read_map(&self->in, &self->reader);
+            channel_read_unmap(&self->in, &self->reader, stale.end - stale.beg);
+        } while (stale.end > stale.beg);
+    }
     self->is_stopping = 0;
     self->is_running = 1;
     CHECK(
